@@ -307,7 +307,7 @@ Qed.
 
 Theorem step_inv s o : SInv s -> SInv (fst (step s o)).
 Proof.
-  intros H. destruct o as [n|gn n force|gn n|gn|gn n|gn|gn|gn n|]; cbn [step].
+  intros H. destruct o as [n|gn n force|gn n|gn|gn n|gn|gn|gn n| |]; cbn [step].
   - (* CreateFolder *) cbn. apply create_folder_inv; auto.
   - (* CreateFile *)
     destruct (negb force && _); [exact H|].
@@ -413,7 +413,13 @@ Proof.
     + rewrite Ei; auto.
     + rewrite Forall_forall. intros x Hx. apply in_map_iff in Hx. destruct Hx as (a & <- & Ha). apply Hh; auto.
     + auto.
+  - (* TickOff *)
+    cbn [fst]. destruct H as [A B C D E F G H' I]. constructor; cbn [folders dfolders next ncreate ndelete]; auto.
 Qed.
+
+Theorem counters_zero_at_tick_start_off s : ncreate (fst (step s TickOff)) = 0 /\ ndelete (fst (step s TickOff)) = 0 /\
+  folders (fst (step s TickOff)) = folders s /\ dfolders (fst (step s TickOff)) = dfolders s.
+Proof. cbn. auto. Qed.
 
 Lemma init_inv : SInv init.
 Proof.
